@@ -94,6 +94,12 @@ class C11(XsProp):
             pre = rng.choice(['7 var vv 1 2', '7 var vv', '7 var vv 9'])
             cs.append('xs limits 6000 - - | eval %s | clone | eval %s | stack | var 7676 | use 1 | stack | var 7676'
                       % (hexsrc(pre), hexsrc('#( %s #)' % e)))
+        # what a block prints / leaves must not depend on what is on the surrounding stack
+        for e in ['.s', 'depth print', 'depth', '1 2 + print', '.s 1', 'depth .s']:
+            for (x, y) in [('9', '8'), ('1 2 3', '"a"'), ('', '[ 1 ]')]:
+                cs.append('xs limits 6001 - - | clone | eval %s | eval %s | out | use 1 | eval %s | eval %s | out' % (
+                    hexsrc(x), hexsrc('#( %s #) drop' % e if e.endswith(('depth', '1')) else '#( %s #)' % e),
+                    hexsrc(y), hexsrc('#( %s #) drop' % e if e.endswith(('depth', '1')) else '#( %s #)' % e)))
         # compile executes nothing outside meta blocks
         for i in range(n // 5):
             g = Gen(rng, bad=0.02)
@@ -106,21 +112,28 @@ class C11(XsProp):
 
     D18 = ('a meta block nested in a meta block is not inlined: its results stay on the meta stack in evaluation order, so a nested '
            'block that yields several values, or one opened while the enclosing block has an open builder or control structure, '
-           'differs from the written-out values (witness: #( [ 1 #( 2 #) 3 ] #) -> [ 1 3 ] 2 ; #( #( 1 2 #) #) -> 2 1)')
+           'or inside a word definition that follows values the enclosing block has already computed, differs from the written-out values '
+           '(witness: #( [ 1 #( 2 #) 3 ] #) -> [ 1 3 ] 2 ; #( #( 1 2 #) #) -> 2 1 ; #( 5 : f #( 1 #) ; f #) differs from #( 5 : f 1 ; f #))')
+
+    D29 = ('the debugging word `.s` prints the whole physical data stack, the part hidden from a meta block included, so a block using it '
+           'shows its surroundings (witness: `9 #( .s #)` and `8 #( .s #)` print different text)')
 
     def known(self, text, impl, spec):
+        if 'surroundings-differ' in text and re.search(r'(^|\s)\.s(\s|$)', text):
+            return self.D29
         m = re.search(r'program-with-block: (.*)', text)
         if not m:
             return None
         toks = m.group(1).split()
         depth = 0
         opened = []          # per open meta block: number of open builders / control structures (definitions excluded)
+        indef = []           # per open meta block: inside a word definition opened in that block
         i = 0
         while i < len(toks):
             t = toks[i]
             if t == '#(':
                 if depth > 0:
-                    if opened[-1] > 0:
+                    if opened[-1] > 0 or indef[-1]:
                         return self.D18
                     # the nested block's own expression: several values?
                     j, d = i + 1, 1
@@ -134,10 +147,20 @@ class C11(XsProp):
                         return self.D18
                 depth += 1
                 opened.append(0)
+                indef.append(False)
             elif t == '#)':
                 depth -= 1
                 if opened:
                     opened.pop()
+                    indef.pop()
+            elif depth > 0 and t == ':':
+                # a definition that starts after the enclosing block has already produced something
+                j = i - 1
+                while j >= 0 and toks[j] != '#(':
+                    j -= 1
+                indef[-1] = (i - j) > 1
+            elif depth > 0 and t == ';':
+                indef[-1] = False
             elif depth > 0 and t in ('[', '{', 'if', 'begin', 'do', 'case', '^{'):
                 opened[-1] += 1
             elif depth > 0 and t in (']', '}', 'then', 'repeat', 'until', 'loop', 'endcase', '^}') and opened[-1] > 0:
@@ -168,6 +191,11 @@ class C11(XsProp):
                     fails.append(('case: %s\nprogram-with-block: %s\nprogram-inlined: %s\nfield: %s\nwith-block: %s\ninlined: %s' % (
                         c, srcs[0], srcs[1], ['result', 'stack', 'stdout', 'code', 'dictionary'][k], str(a[k])[:600], str(b[k])[:600]),
                         'a program with a meta block differs from the program with the value written out'))
+            elif c.startswith('xs limits 6001 '):
+                n += 1
+                if (ou[3], ou[4]) != (ou[7], ou[8]):
+                    fails.append(('case: %s\nsurroundings-differ: %s\nblock-result-and-output: %s %s / %s %s' % (
+                        c, ' ;; '.join(src_of(c)), ou[3], ou[4], ou[7], ou[8]), 'what a meta block does depends on the surrounding data stack'))
             elif 'var 7676' in st:
                 n += 1
                 # after the (failing or not) sealed block the outer stack and variable are as on the untouched clone,
